@@ -142,3 +142,45 @@ def switch_default_edges(fn):
                 if s >= 0 and fn.blocks[s].get("case") is None:
                     res.add((b, s))
     return res
+
+
+def implies_any(c, preds):
+    """Does condition c being TRUE imply that at least one of preds holds?  `a && b` implies what either side implies;
+    `a || b` only what both sides imply; anything else must satisfy a predicate itself."""
+    if isinstance(c, list) and c and c[0] == "op" and c[1] == "&&":
+        return implies_any(c[2], preds) or implies_any(c[3], preds)
+    if isinstance(c, list) and c and c[0] == "op" and c[1] == "||":
+        return implies_any(c[2], preds) and implies_any(c[3], preds)
+    return any(p(c) for p in preds)
+
+
+def implied_edges(fn, preds):
+    """TRUE edges of two-way branches (if / loop conditions / short-circuit operands) whose condition implies one of preds."""
+    res = set()
+    for b, blk in fn.blocks.items():
+        t = blk.get("term")
+        if not t or t.get("cond") is None or t["k"] not in ("if", "cond", "while", "for", "do", "||", "&&"):
+            continue
+        succ = blk["succ"]
+        if succ and succ[0] >= 0 and implies_any(t["cond"], preds):
+            res.add((b, succ[0]))
+    return res
+
+
+def only_via(fn, block, edges):
+    """True iff every feasible CFG path from the function entry to `block` uses one of `edges` (block-level search)."""
+    if not edges:
+        return False
+    infeas = fn.infeasible_edges()
+    seen = {fn.entry}
+    st = [fn.entry]
+    while st:
+        b = st.pop()
+        if b == block:
+            return False
+        for s in fn.succs(b):
+            if s in seen or (b, s) in edges or (b, s) in infeas:
+                continue
+            seen.add(s)
+            st.append(s)
+    return True
